@@ -71,7 +71,7 @@ func (c *vC05LifeCrypto) VerifyReportSignatures(_ context.Context, sigs []ccipty
 			}
 		}
 		if !found || s.S != tag {
-			return vErr
+			return vErrNext()
 		}
 	}
 	return nil
@@ -138,7 +138,7 @@ type vC05LifeHome struct {
 
 func (h vC05LifeHome) GetRMNNodesInfo(d cciptypes.Bytes32) ([]rmntypes.HomeNodeInfo, error) {
 	if h.net.ifail == 1 {
-		return nil, vErr
+		return nil, vErrNext()
 	}
 	return h.net.nodesFor(d), nil
 }
@@ -161,7 +161,7 @@ type vC05LifeCtrl struct {
 func (c *vC05LifeCtrl) InitConnection(_ context.Context, commitDigest, homeDigest cciptypes.Bytes32, peers []ragep2ptypes.PeerID, nodes []rmntypes.HomeNodeInfo) error {
 	c.inits = append(c.inits, vC05LifeInit{homeDigest, vC05LifeNodesKey(commitDigest, peers, nodes)})
 	if c.net.ifail == 2 {
-		return vErr
+		return vErrNext()
 	}
 	c.conn = homeDigest
 	return nil
@@ -177,7 +177,7 @@ func (c *vC05LifeCtrl) ComputeReportSignatures(_ context.Context, dest *rmnpb.La
 	case "timeout":
 		return nil, rmn.ErrTimeout
 	case "err":
-		return nil, vErr
+		return nil, vErrNext()
 	}
 	rs := &rmn.ReportSignatures{}
 	for i, rq := range reqs {
@@ -378,12 +378,12 @@ func TestVerif_C05_life(t *testing.T) {
 			AddrFn: func(name string, chain cciptypes.ChainSelector) ([]byte, error) {
 				if name == consts.ContractNameOffRamp {
 					if offErr {
-						return nil, vErr
+						return nil, vErrNext()
 					}
 					return append([]byte{}, offAddr...), nil
 				}
 				if onAddrErr[chain] {
-					return nil, vErr
+					return nil, vErrNext()
 				}
 				return onAddr(chain), nil
 			},
@@ -724,7 +724,7 @@ func TestVerif_C05_life(t *testing.T) {
 			var out Outcome
 			haveOut := false
 			var co consensusObservation
-			var cerr error = vErr
+			var cerr error = vErrNext()
 			rootsObserved := 0
 			outDiffers := false
 			if !leaderFailed {
